@@ -1,8 +1,8 @@
 (* C10 driver: the extracted naive reference (spec/ElectionSpec.v) on the scenario; the
    implementation's observation must equal it token for token (per event: frame assigned by
-   Build and Process result; blocks: frame, Atropos, cheaters; last decided frame).
-   For tiny scenarios the forkless-cause relation of the reference is cross-checked against
-   FcSpec.fc_spec (graph definition owned by the vector-index property). *)
+   Build and Process result; blocks: epoch, frame, Atropos, sealed, cheaters; epoch and last decided
+   frame).  For tiny single-epoch scenarios the forkless-cause relation of the reference is
+   cross-checked against FcSpec.fc_spec (graph definition owned by the vector-index property). *)
 open Model
 open Conv
 open Drv
@@ -10,11 +10,11 @@ open Refparse
 
 let eval inp obs =
   let s = parse inp in
-  let (rs, bs) = reference s.vals s.evs in
-  let m = event_tokens rs @ block_tokens bs in
-  let cross = if s.nev <= 13 then fc_crosscheck s.vals s.evs else true in
+  let res = run_reference s in
+  let m = event_tokens res @ List.init (unopened s res) (fun _ -> "skip") @ block_tokens res in
+  let cross = (match s.eps with [d] when s.nev <= 13 -> fc_crosscheck s.vals d | _ -> true) in
   { default_verdict with model_obs = m; spec_ok = Some (m = obs); model_spec_ok = cross;
-    nontrivial = (bs <> []);
+    nontrivial = any_block res;
     note = (if cross then "" else "fc_n differs from FcSpec.fc_spec") }
 
 let () = run eval
